@@ -315,6 +315,32 @@ def run_registry(sc, unit, pid, tier):
         # refutations on labelled obligations are still refutations only if the file compiled and the rest is about them
         if not vr or any('not supported' in h or 'error[' in h or 'expected' in h for h in hard):
             return out
+    unstable = set()
+    if refuted and vr and not hard:
+        # a refutation must be stable: the same obligation has to fail under two more solver seeds, otherwise it is
+        # solver instability (undecided), not a violation
+        for seed in (1, 2):
+            try:
+                p2 = subprocess.run(cmd + ['--smt-option', 'smt.random_seed=%d' % seed], cwd=sc.path, stdout=subprocess.PIPE, stderr=subprocess.PIPE, text=True, timeout=unit.get('timeout_s', 600))
+            except subprocess.TimeoutExpired:
+                continue
+            lines2 = set()
+            for l in p2.stderr.splitlines():
+                if l.startswith('{'):
+                    try:
+                        d = json.loads(l)
+                    except Exception:
+                        continue
+                    if d.get('level') == 'error' and any(d.get('message', '').startswith(r) for r in REFUTED):
+                        for s_ in d.get('spans', []):
+                            lines2.add(s_['line_start'])
+            for o in list(refuted):
+                ln = int(re.search(r'generated line (\d+)', refuted[o]['loc']).group(1))
+                if ln not in lines2:
+                    out['undecided'].append('unit registry_verus: obligation %s failed with the default solver seed but not with seed %d: unstable proof, not a refutation' % (o, seed))
+                    unstable.add(o)
+                    del refuted[o]
+        out['cmds'].append('(on refutation: repeated with smt.random_seed=1 and 2; a refutation counts only if it is reproduced under all three seeds)')
     for o, v in refuted.items():
         out['failed'][o] = v
     if vr and not hard:
@@ -322,7 +348,7 @@ def run_registry(sc, unit, pid, tier):
             return next((f for f, (a, b) in fn_span.items() if a <= line <= b), None)
         bad_fns = {v['function'] for v in refuted.values()}
         for o in unit['obligations']:
-            if o in refuted:
+            if o in refuted or o in unstable:
                 continue
             fns = {fn_of(l) for l, x in obl_at.items() if x == o}
             if o == 'C05.V-NO-PANIC':
